@@ -6,8 +6,22 @@ use std::io::{BufRead, BufWriter, Write};
 use std::panic::{catch_unwind, AssertUnwindSafe};
 use std::sync::Mutex;
 
+#[cfg(feature = "fam_countmin")]
 mod countmin;
+#[cfg(feature = "fam_hashes")]
 mod hashes;
+#[cfg(feature = "fam_bloom")]
+mod bloom;
+#[cfg(feature = "fam_freq")]
+mod freq;
+#[cfg(feature = "fam_theta")]
+mod theta;
+#[cfg(feature = "fam_hll")]
+mod hll;
+#[cfg(feature = "fam_cpc")]
+mod cpc;
+#[cfg(feature = "fam_tdigest")]
+mod tdigest;
 
 pub type Ob = Vec<i128>;
 pub const PANIC: i128 = -999;
@@ -95,8 +109,22 @@ fn main() {
         std::process::exit(2);
     }
     match args[1].as_str() {
+        #[cfg(feature = "fam_countmin")]
         "countmin" => run_family::<countmin::Cm>(&args[2], &args[3]),
+        #[cfg(feature = "fam_hashes")]
         "hashes" => run_family::<hashes::Hashes>(&args[2], &args[3]),
+        #[cfg(feature = "fam_bloom")]
+        "bloom" => run_family::<bloom::Fam>(&args[2], &args[3]),
+        #[cfg(feature = "fam_freq")]
+        "freq" => run_family::<freq::Fam>(&args[2], &args[3]),
+        #[cfg(feature = "fam_theta")]
+        "theta" => run_family::<theta::Fam>(&args[2], &args[3]),
+        #[cfg(feature = "fam_hll")]
+        "hll" => run_family::<hll::Fam>(&args[2], &args[3]),
+        #[cfg(feature = "fam_cpc")]
+        "cpc" => run_family::<cpc::Fam>(&args[2], &args[3]),
+        #[cfg(feature = "fam_tdigest")]
+        "tdigest" => run_family::<tdigest::Fam>(&args[2], &args[3]),
         other => {
             eprintln!("unknown family {other}");
             std::process::exit(2);
